@@ -374,17 +374,18 @@ class ThreadPoolServer(Server):
             # the connection has already been unregistered
             pass
 
-    def _drop_connection(self, fd):
-        '''removes a connection by closing it and removing it from internal structs'''
-        conn = None
+    def _drop_connection(self, fd, conn=None):
+        '''removes a connection by closing it and removing it from internal structs.
+
+        ``conn``: the connection the caller was serving under this descriptor number. A connection that reached
+        end-of-stream has already closed its socket, so the number may by now belong to a NEW client that the accept
+        thread stored under it: the table entry is removed only if it still is ``conn``'''
 
         # cleanup fd_to_conn dictionnary
-        try:
-            conn = self.fd_to_conn[fd]
+        if conn is None:
+            conn = self.fd_to_conn.pop(fd, None)
+        elif self.fd_to_conn.get(fd) is conn:
             del self.fd_to_conn[fd]
-        except KeyError:
-            # the active connection has already been removed
-            pass
 
         # close connection
         self.logger.info("Closing connection for fd %d", fd)
@@ -432,15 +433,16 @@ class ThreadPoolServer(Server):
     def _serve_requests(self, fd):
         '''Serves requests from the given connection and puts it back to the appropriate queue'''
         # serve a maximum of RequestBatchSize requests for this connection
+        conn = self.fd_to_conn[fd]
         for _ in range(self.request_batch_size):
             try:
-                if not self.fd_to_conn[fd].poll():  # note that poll serves the request
+                if not conn.poll():  # note that poll serves the request
                     # we could not find a request, so we put this connection back to the inactive set
                     self._add_inactive_connection(fd)
                     return
             except EOFError:
                 # the connection has been closed by the remote end. Close it on our side and return
-                self._drop_connection(fd)
+                self._drop_connection(fd, conn)
                 return
             except Exception:
                 # put back the connection to active queue in doubt and raise the exception to the upper level
